@@ -113,6 +113,14 @@ fn hist_cfg_for(seed: u64, m: &HashMap<String, String>) -> hist::HistCfg {
         cfg.nkeys = cfg.nkeys.max(6);
         cfg.opts.memtable = cfg.opts.memtable.max(2500);
     }
+    if cfg.profile == "straddle" {
+        // (the prologue builds its layout with exactly these sizes)
+        cfg.nkeys = cfg.nkeys.max(11);
+        cfg.opts.memtable = 100_000;
+        cfg.opts.block = 256;
+        cfg.opts.file = 1024;
+        cfg.max_snaps = cfg.max_snaps.max(2);
+    }
     if m.contains_key("small-caches") {
         // (drawn last: the other settings of a seed stay what they are without the flag)
         cfg.cache_cap = *[2usize, 2, 3, 4, 8].get(rng.gen_range(0..5)).unwrap();
